@@ -10,7 +10,11 @@ Oracles, all written from the statement:
         block estimates recomputed by an independent loop;
   (iv)  SSIcov(calc_unc=True).result.Fn_poles_cov equals the function route on the bound data.
 Guards come from my own SVD / shift-invariance eigenvalues of H, never from the library's output.
+The lattice contains a region of systems with COINCIDENT NATURAL FREQUENCIES: two distinct, simple, separated eigenvalues (two modes of
+different damping, or a mode and a real pole) whose identified natural frequencies agree exactly or to a few 1e-6 relative - the
+quantifier asks for simple eigenvalues, not for distinct frequencies; every frequency must still get ITS OWN variance.
 """
+import collections
 import itertools
 
 import numpy as np
@@ -22,11 +26,14 @@ ID = "C17"
 TECHNIQUE = ("exhaustive walk of a configuration lattice around a payload alphabet of Hankel matrices and covariance "
              "factors; on every lattice point the reported variances are compared with central finite differences of "
              "the real identification (two step sizes, Richardson-combined, must agree), with the additivity over factor "
-             "columns, with an independently recomputed block-bootstrap factor, and with the algorithm-class route")
+             "columns, with an independently recomputed block-bootstrap factor, and with the algorithm-class route; the "
+             "alphabet contains systems designed (root bracketing on ground truth) so that two distinct eigenvalues share "
+             "their natural frequency")
 LEVEL_TEXT = ("every configuration of the stated lattice is executed on the real ssi.build_hank / SSI_fast / SSI_poles "
-              "(and SSIcov through SingleSetup); every variance cell of every guarded model order is judged")
+              "(and SSIcov through SingleSetup); every variance cell of every guarded model order is judged; the lattice includes "
+              "systems designed so that two distinct eigenvalues share their natural frequency (exactly / to 1e-6 relative)")
 RULE = ("a case is one lattice point (family, channels, reference subset, block rows, order n = ordmax, factor columns, "
-        "system variant); "
+        "system variant, and in the coincident-frequency region the coincidence variant and the relative frequency offset); "
         "non-trivial = it passed the truth-based guards, at least one model order in 2..n had its finite differences "
         "agree at both step sizes and a strictly positive expected variance (so a number was actually compared); "
         "distinct by lattice coordinates")
@@ -39,6 +46,11 @@ ASSUMPTIONS = [
     "in the summed squares is not judged",
     "the layout of the Hankel matrix itself (which lag sits where) is C12's subject: the block estimates are recomputed "
     "with the same lag layout lag(i,j) = i+j+1 and uniform weight 1/Nb; slack 2 max|H|/N covers 1/N versus 1/(N-1)",
+    "coincident-frequency region: the input (Hankel matrix or record) is DESIGNED by tuning one design frequency with scipy.optimize.brentq "
+    "on my own identification (numpy svd / pinv / eigvals of the Hankel matrix; for records my own moment matrix, which is proportional to "
+    "build_hank's) until the two identified natural frequencies have the stated relative offset to 1e-10; the library's own identification "
+    "agrees with mine far below numpy.isclose-like tolerances (monitored: eq_identified_frequency_rel_difference); nothing else differs "
+    "from the other cases (same guards from truth, same finite-difference reference matched by eigenvalue, same tolerances)",
     "record lengths are chosen with N mod nb = 1 so that the block length N//nb is unambiguous; the data factor is additionally judged on a record with N mod nb = nb-1, where either contiguous partition (nb blocks of N//nb, or block lengths differing by one) is accepted provided every block estimate is normalised by its own length",
 ]
 
@@ -115,6 +127,147 @@ def record(seed, l, n, var=0):
 
 def ndat_for(br):
     return N_BASE + 2 * br + 1
+
+
+# ---- coincident natural frequencies: distinct, simple eigenvalues with the same |lambda_c| -----------------------
+# Two different modes may have the same natural frequency and different damping ratios (a real pole has damping ratio 1): the
+# eigenvalues are simple and well separated (the quantifier's only conditions), only their moduli agree. The design frequency of
+# mode b is tuned (deterministic root bracketing on MY OWN shift-invariance identification of the Hankel matrix) until the natural
+# frequency identified for b at order n equals the one identified for a times (1 + offset).
+
+EQ_VARIANTS = {       # shared natural frequency f/fs, damping ratio of mode a, of mode b (even n), relative full-rank part
+    0: (0.17, 0.01, 0.08, 1e-3),
+    1: (0.31, 0.005, 0.04, 3e-3),
+    2: (0.12, 0.02, 0.12, 3e-4),
+}
+EQ_OFFSETS = {0: 0.0, 1: 1e-6, 2: -1e-6, 3: 4e-6}     # (f_b - f_a)/f_a of the IDENTIFIED frequencies at order n
+EQ_EXTRA = (0.55, 1.4, 0.8)                            # further modes (orders >= 5): frequency relative to the shared one
+EQ_BRACKET = 0.08
+EQ_ACHIEVED = 1e-10
+
+
+def eq_design(n, eqv, fb):
+    """Continuous-time design eigenvalues (upper half plane / real axis): mode a, mode b (a real pole when n is odd), further modes."""
+    fa, xa, xb, _ = EQ_VARIANTS[eqv]
+    wa, wb = 2 * np.pi * fa / DT, 2 * np.pi * fb / DT
+    lam_a = wa * (-xa + 1j * np.sqrt(1 - xa**2))
+    lam_b = complex(-wb) if n % 2 else wb * (-xb + 1j * np.sqrt(1 - xb**2))
+    xc = 0.5 * (xa + xb)
+    extra = [2 * np.pi * EQ_EXTRA[k] * fa / DT * (-xc + 1j * np.sqrt(1 - xc**2)) for k in range((n - (3 if n % 2 else 4)) // 2)]
+    return lam_a, lam_b, extra
+
+
+def system_eq(seed, l, n, eqv, fb):
+    lam_a, lam_b, extra = eq_design(n, eqv, fb)
+    A = np.zeros((n, n))
+    for k, lam in enumerate([lam_a] + extra + ([] if n % 2 else [lam_b])):
+        z = np.exp(lam * DT)
+        A[2 * k:2 * k + 2, 2 * k:2 * k + 2] = [[z.real, z.imag], [-z.imag, z.real]]
+    if n % 2:
+        A[n - 1, n - 1] = np.exp(lam_b.real * DT)
+    C = payload.entries(seed, f"c17/eq/C/{l}/{n}/{eqv}", (l, n), lo=0.2, hi=1.0)
+    G = payload.entries(seed, f"c17/eq/G/{l}/{n}/{eqv}", (n, l), lo=0.2, hi=1.0)
+    return A, C, G
+
+
+_EQE = {}
+
+
+def hankel_eq_exact(seed, l, refs, br, n, eqv, fb):
+    A, C, G = system_eq(seed, l, n, eqv, fb)
+    Gr = G[:, list(refs)]
+    O = np.vstack([C @ np.linalg.matrix_power(A, i) for i in range(br + 1)])
+    Con = np.hstack([np.linalg.matrix_power(A, i) @ Gr for i in range(br + 1)])
+    H = O @ Con
+    key = (seed, l, refs, br, n, eqv)
+    if key not in _EQE:
+        _EQE.clear()
+        _EQE[key] = payload.normal(seed, f"c17/eq/E/{l}/{refs}/{br}/{n}/{eqv}", H.shape)
+    E = _EQE[key]
+    return H + EQ_VARIANTS[eqv][3] * np.linalg.norm(H) / np.linalg.norm(E) * E
+
+
+_EQW = {}
+
+
+def record_eq(seed, l, n, eqv, fb):
+    """Response of system_eq to payload white noise plus 5 % measurement noise (modal recursion, one complex state per 2x2 block)."""
+    from scipy.signal import lfilter
+
+    key = (seed, l, n, eqv)
+    nd = N_BASE + 2 * 8 + 1 + 200
+    if key not in _EQW:
+        _EQW.clear()
+        _EQW[key] = (payload.normal(seed, f"c17/eq/w/{l}/{n}/{eqv}", (nd, l)), payload.normal(seed, f"c17/eq/v/{l}/{n}/{eqv}", (nd, l)))
+    w, v = _EQW[key]
+    A, C, G = system_eq(seed, l, n, eqv, fb)
+    u = w @ G.T                                           # (nd, n): input of every state
+    x = np.zeros((nd, n))
+    for k in range(n // 2):                               # block [[a, b], [-b, a]] acts on c = x1 - i x2 as multiplication by a + i b
+        z = A[2 * k, 2 * k] + 1j * A[2 * k, 2 * k + 1]
+        cin = u[:, 2 * k] - 1j * u[:, 2 * k + 1]
+        c = lfilter([0.0, 1.0], [1.0, -z], cin)           # c[t+1] = z c[t] + cin[t], c[0] = 0
+        x[:, 2 * k], x[:, 2 * k + 1] = c.real, -c.imag
+    if n % 2:
+        x[:, n - 1] = lfilter([0.0, 1.0], [1.0, -A[n - 1, n - 1]], u[:, n - 1])
+    y = (x @ C.T)[200:]
+    return y + 0.05 * y.std(0) * v[200:]
+
+
+def own_hankel(Y, Yref, br):
+    """Moment matrix with the Hankel layout lag(i,j) = i+j+1 (same layout as block_moments), explicit loops."""
+    l, nd = Y.shape
+    r = Yref.shape[0]
+    p, q = br, br + 1
+    nc = nd - p - q - 1
+    M = np.zeros(((p + 1) * l, q * r))
+    for i in range(p + 1):
+        yi = Y[:, q + 1 + i:q + 1 + i + nc]
+        for j in range(q):
+            M[i * l:(i + 1) * l, j * r:(j + 1) * r] = yi @ Yref[:, q - j:q - j + nc].T / nc
+    return M
+
+
+def own_poles(H, l, n):
+    """Continuous-time eigenvalues at order n by my own shift-invariance identification (SVD, pseudo-inverse, eigvals)."""
+    U, s, _ = np.linalg.svd(H)
+    Obs = U[:, :n] * np.sqrt(s[:n])
+    z = np.linalg.eigvals(np.linalg.pinv(Obs[:-l]) @ Obs[l:])
+    return np.log(z.astype(complex)) / DT
+
+
+def eq_gap(H, l, n, lam_a, lam_b):
+    """|lambda_b| / |lambda_a| - 1 of the identified poles nearest to the design poles a and b (upper half plane / real axis)."""
+    lam = own_poles(H, l, n)
+    if not np.all(np.isfinite(lam)):
+        return np.nan
+    lam = np.where(lam.imag < 0, lam.conj(), lam)
+    ia = int(np.argmin(np.abs(lam - lam_a)))
+    d = np.abs(lam - lam_b)
+    d[np.abs(lam - lam[ia]) < 1e-9 * abs(lam_a)] = np.inf      # a itself and its conjugate
+    ib = int(np.argmin(d))
+    return abs(lam[ib]) / abs(lam[ia]) - 1.0
+
+
+def tune_eq(hfun, l, n, eqv, off):
+    """Design frequency of mode b (f/fs) such that hfun(fb) has identified f_b = f_a (1 + off) at order n; None when no bracket."""
+    from scipy.optimize import brentq
+
+    fa = EQ_VARIANTS[eqv][0]
+
+    def g(fb):
+        lam_a, lam_b, _ = eq_design(n, eqv, fb)
+        return eq_gap(hfun(fb), l, n, lam_a, lam_b) - off
+
+    lo, hi = fa * (1 - EQ_BRACKET), fa * (1 + EQ_BRACKET)
+    glo, ghi = g(lo), g(hi)
+    if not (np.isfinite(glo) and np.isfinite(ghi) and glo * ghi < 0):
+        return None, np.nan
+    try:
+        fb = brentq(g, lo, hi, xtol=1e-16, rtol=8.9e-16, maxiter=200)
+    except Exception:
+        return None, np.nan
+    return fb, abs(g(fb))
 
 
 def my_guards(H, l, n):
@@ -294,27 +447,59 @@ def feasible(l, r, br, n):
 
 
 def run_case(seed, c):
+    t = _run_case(seed, c)
+    if c.get("eq") is not None:
+        # the outcome counters of the coincident-frequency region are kept apart: the vacuity monitors of the rest of the lattice
+        # must not be satisfied by it
+        t.outcomes = collections.Counter({(k if k.startswith("eq:") else "eq/" + k): v for k, v in t.outcomes.items()})
+    return t
+
+
+def _run_case(seed, c):
     from pyoma2.functions import ssi
 
     t = Tally()
     t.states = 1
     fam, l, refs, br, n, ncol = c["fam"], c["l"], tuple(c["refs"]), c["br"], c["n"], c["ncol"]
     var = c.get("var", 0)
+    eq = tuple(c["eq"]) if c.get("eq") is not None else None       # (coincidence variant, offset index) or None
     r = len(refs)
     case = dict(c, seed=seed)
-    cid = (fam[0], l, refs, br, n, ncol, var)
+    cid = (fam[0], l, refs, br, n, ncol, var) + (("eq",) + eq if eq else ())
 
     # the overall level of the Hankel matrix / of the records is free (variances relative to f^2 are scale invariant): unit level,
     # and a very small one (nanometre displacements in metres) on every second lattice point
     level = 1.0 if (l + br + n + ncol + (0 if fam == "exact" else 1)) % 2 else 1e-9
     t.outcomes[f"level:{level:g}"] += 1
     T = None
+    fb = None
+    if eq:
+        # two distinct eigenvalues with (nearly) the same natural frequency: tune the design frequency of mode b on ground truth
+        eqv, off = eq[0], EQ_OFFSETS[eq[1]]
+        t.outcomes["eq:cases"] += 1
+        if fam == "exact":
+            def hfun(f):
+                return hankel_eq_exact(seed, l, refs, br, n, eqv, f)
+        else:
+            def hfun(f):
+                Yf = record_eq(seed, l, n, eqv, f)[:ndat_for(br)].T
+                return own_hankel(Yf, Yf[list(refs), :], br)
+        fb, achieved = tune_eq(hfun, l, n, eqv, off)
+        if fb is None or not achieved <= EQ_ACHIEVED:
+            t.not_judged += 1
+            t.outcomes[f"eq:{fam}:no-coincidence-within-the-bracket:not-judged"] += 1
+            return t
+        t.err("eq_coincidence_abs_error_of_relative_offset", achieved)
     if fam == "exact":
-        H = (level ** 2) * hankel_exact(seed, l, refs, br, n, var)
-        T = payload.normal(seed, f"c17/T/{l}/{refs}/{br}/{n}/{var}", (H.size, 20))[:, :ncol] * 1e-3 * np.linalg.norm(H) / np.sqrt(H.size)
+        if eq:
+            H = (level ** 2) * hankel_eq_exact(seed, l, refs, br, n, eqv, fb)
+            T = payload.normal(seed, f"c17/eq/T/{l}/{refs}/{br}/{n}/{eqv}", (H.size, 20))[:, :ncol] * 1e-3 * np.linalg.norm(H) / np.sqrt(H.size)
+        else:
+            H = (level ** 2) * hankel_exact(seed, l, refs, br, n, var)
+            T = payload.normal(seed, f"c17/T/{l}/{refs}/{br}/{n}/{var}", (H.size, 20))[:, :ncol] * 1e-3 * np.linalg.norm(H) / np.sqrt(H.size)
     else:
         nb = 3 if ncol == 1 else ncol
-        data = level * record(seed, l, n, var)[:ndat_for(br)]
+        data = level * (record_eq(seed, l, n, eqv, fb) if eq else record(seed, l, n, var))[:ndat_for(br)]
         Y = data.T                                        # same memory layout as the algorithm class uses (a transposed view)
         Yref = Y[list(refs), :] if r < l else Y
         t.evaluations += 1
@@ -380,6 +565,16 @@ def run_case(seed, c):
     judged_any = False
     scale2 = np.linalg.norm(T) ** 2 / np.linalg.norm(H) ** 2      # sum_k (|T_k| / |H|)^2
     cells = np.zeros((n, n + 1), bool)                            # the cells that are judged
+    eq_rows = ([], [])
+    if eq:
+        # rows of the order-n column that hold the coincident poles a and b (labels and vacuity monitors only)
+        lam_a, lam_b, _ = eq_design(n, eqv, fb)
+        lf = np.where(Lam0[:n, n].imag < 0, Lam0[:n, n].conj(), Lam0[:n, n])
+        if np.all(np.isfinite(lf)):
+            ra = np.abs(lf - lf[int(np.argmin(np.abs(lf - lam_a)))]) < 1e-6 * abs(lam_a)
+            db = np.where(ra, np.inf, np.abs(lf - lam_b))
+            rb = (np.abs(lf - lf[int(np.argmin(db))]) < 1e-6 * abs(lam_a)) & ~ra
+            eq_rows = (list(np.flatnonzero(ra)), list(np.flatnonzero(rb)))
     for k in orders:
         judged = 0
         for i in range(k):
@@ -399,7 +594,8 @@ def run_case(seed, c):
             rel = abs(got - exp) / exp
             judged += 1
             if not rel <= RTOL:
-                t.violation("propagation:fn-variance-vs-finite-difference",
+                coincident = eq and k == n and i in eq_rows[0] + eq_rows[1]
+                t.violation("propagation:fn-variance-vs-finite-difference" + (":pole-sharing-its-natural-frequency-with-another" if coincident else ""),
                             f"order {k}, pole {i} (f={Fn0[i, k]:.6g}): Fn_cov={got:.6e}, squared directional derivative(s) "
                             f"sum to {exp:.6e} (steps agree to {abs(a-b)/b:.1e}); ratio {got/exp:.4g}; "
                             f"H {H.shape}, {T.shape[1]} factor column(s)", case)
@@ -412,6 +608,19 @@ def run_case(seed, c):
             t.outcomes[f"order-judged:{k}"] += 1
             if k < n:
                 t.outcomes["order-below-ordmax-judged"] += 1
+    if eq:
+        rows = eq_rows[0] + eq_rows[1]
+        if eq_rows[0] and eq_rows[1] and all(cells[i, n] for i in rows):
+            t.outcomes["eq:coincident-poles-judged"] += 1
+            t.outcomes[f"eq:{fam}:coincident-poles-judged"] += 1
+            t.outcomes[f"eq:offset:{off:g}:judged"] += 1
+            t.outcomes[f"eq:{'mode-and-real-pole' if n % 2 else 'two-modes'}:judged"] += 1
+            t.outcomes[f"eq:order-{n}:judged"] += 1
+            if min(abs(i - j) for i in eq_rows[0] for j in eq_rows[1]) == 1:
+                t.outcomes["eq:coincident-poles-adjacent-in-the-pole-list:judged"] += 1
+            t.err("eq_identified_frequency_rel_difference", max(abs(Fn0[i, n] / Fn0[j, n] - 1) for i in eq_rows[0] for j in eq_rows[1]))
+        else:
+            t.outcomes["eq:coincident-poles-not-all-judged"] += 1
     if not judged_any:
         t.not_judged += 1
         t.outcomes["case:no-pole-judged"] += 1
@@ -469,10 +678,10 @@ def layouts(ls):
 
 
 def _slice(item):
-    fam, l, refs, br, n, ncols, var = item
+    fam, l, refs, br, n, ncols, var, eq = item
     t = Tally()
     for ncol in ncols:
-        t.merge(run_case(_SEED, dict(fam=fam, l=l, refs=list(refs), br=br, n=n, ncol=ncol, var=var)))
+        t.merge(run_case(_SEED, dict(fam=fam, l=l, refs=list(refs), br=br, n=n, ncol=ncol, var=var, eq=list(eq) if eq else None)))
     return t
 
 
@@ -502,15 +711,47 @@ def explore(ctx):
             infeasible += len(ncols)
             continue
         for ncol in ncols:
-            items.append((fam, l, refs, br, n, [ncol], var))
+            items.append((fam, l, refs, br, n, [ncol], var, None))
     ctx.bounds["infeasible_lattice_points (H too small for order n)"] = infeasible
+
+    # coincident natural frequencies: two distinct, separated eigenvalues with the same |lambda_c| (within the stated relative offset)
+    if ctx.thorough:
+        eq_ns, eq_ncols, eq_offs, eq_vars = [3, 4, 5, 6, 7, 8], [1, 3], [0, 1, 2, 3], None
+    else:
+        eq_ns, eq_ncols, eq_offs, eq_vars = [3, 4, 6], [3], [0, 1], "rotating"
+    ctx.bounds["coincident_natural_frequencies"] = {
+        "what": "systems in which two DISTINCT simple eigenvalues have the same natural frequency |lambda_c|/2pi and different damping ratios: "
+                "even n = two modes (plus further modes at other frequencies for n >= 6), odd n = a mode and a real pole (damping ratio 1) of the "
+                "same modulus; the design frequency of the second one is tuned by root bracketing on my own shift-invariance identification of "
+                "the Hankel matrix (exact family) / of my own moment matrix of the record (data family) until the frequencies IDENTIFIED at "
+                "order n satisfy f_b = f_a (1 + offset) to 1e-10; same oracles, guards and tolerances as the rest of the lattice",
+        "variant (shared f/fs, damping a, damping b, relative full-rank part)": {str(k): v for k, v in EQ_VARIANTS.items()},
+        "variant per lattice point": "all three" if eq_vars is None else "(l + r + br + n) mod 3 (every variant occurs with every layout and every n)",
+        "relative offset (f_b - f_a)/f_a of the identified frequencies": [EQ_OFFSETS[o] for o in eq_offs],
+        "order n = ordmax": eq_ns, "further modes at (relative to the shared frequency)": list(EQ_EXTRA[:2]),
+        "layouts": "all 11", "br": brs, "factor_columns": eq_ncols,
+        "family": "exact: every n; data: even n only (a real pole of the shared modulus is not recovered from a finite record, no coincidence can be tuned)",
+        "tuning bracket": f"design frequency within +-{EQ_BRACKET:g} of the shared one; no sign change -> case not judged (counted)",
+    }
+    eq_items = []
+    for fam, (l, refs), br, n in itertools.product(("exact", "data"), lay, brs, eq_ns):
+        if not feasible(l, len(refs), br, n) or (fam == "data" and n % 2):
+            continue
+        for eqv in ([0, 1, 2] if eq_vars is None else [(l + len(refs) + br + n) % 3]):
+            for off, ncol in itertools.product(eq_offs, eq_ncols):
+                eq_items.append((fam, l, refs, br, n, [ncol], 0, (eqv, off)))
+    items += eq_items
     items.sort(key=lambda it: -(it[5][0] * it[4] ** 2 * (it[3] + 1) ** 2 * it[1] * len(it[2])))
     ctx.pmap(_slice, items, chunksize=1)
     ctx.require("level:1", "level:1e-09", "exact:judged", "data:judged", "factor:holds", "factor:remainder-record-judged", "factor:vec-order-decidable", "additivity:holds", "class:holds",
                 "order-below-ordmax-judged", "columns:1", "columns:20")
+    ctx.require("eq:exact:coincident-poles-judged", "eq:data:coincident-poles-judged", "eq:two-modes:judged", "eq:mode-and-real-pole:judged",
+                "eq:coincident-poles-adjacent-in-the-pole-list:judged", "eq/additivity:holds", "eq/class:holds", "eq/factor:holds",
+                *[f"eq:offset:{EQ_OFFSETS[o]:g}:judged" for o in eq_offs], *[f"eq:order-{n}:judged" for n in eq_ns])
 
 
 def replay(case):
     c = {k: case[k] for k in ("fam", "l", "refs", "br", "n", "ncol")}
     c["var"] = case.get("var", 0)
+    c["eq"] = case.get("eq")
     return run_case(case["seed"], c)
